@@ -211,6 +211,12 @@ OPS = {"solve": op_solve, "reach": op_reach, "solve_seq": op_solve_seq, "rdfs": 
        "run_games": op_run_games, "report": op_report, "call": op_call, "board": op_board,
        "write_robots": op_write_robots}
 
+# plug-in operations: harness/ops_*.py, each defining OPS = {"name": function(case) -> dict}
+import glob as _glob, importlib as _importlib
+for _p in sorted(_glob.glob(os.path.join(os.path.dirname(os.path.abspath(__file__)), "ops_*.py"))):
+    _m = _importlib.import_module(os.path.basename(_p)[:-3])
+    OPS.update(getattr(_m, "OPS", {}))
+
 with open(fin) as f, open(fout, "w") as g:
     for line in f:
         c = json.loads(line)
